@@ -11,6 +11,7 @@
 (***************************************************************************)
 EXTENDS Integers, Sequences, FiniteSets, TLC, Json, SequencesExt
 
+CONSTANT FullPaths   \* TRUE: every path shape gets every variation; FALSE: only "/", "/B", "/B/K" do
 VARIABLES mp
 vars == <<mp>>
 
@@ -48,12 +49,15 @@ BodyClasses == {"empty", "delete-xml", "complete-xml", "versioning-xml", "trunca
 \* the default of every dimension
 Base(m, p, s) == [method |-> m, path |-> p, subs |-> s, pname |-> "", pclass |-> "valid", hdr |-> [h |-> "", v |-> ""], body |-> "empty"]
 
+RichPaths == {"/", "/B", "/B/K"}
 Requests(m, p) ==
   UNION {
      {Base(m, p, s)}
-     \cup {[Base(m, p, s) EXCEPT !.pname = n, !.pclass = c] : n \in ValueParams, c \in ValueClasses}
+     \cup (IF FullPaths \/ p \in RichPaths
+           THEN {[Base(m, p, s) EXCEPT !.pname = n, !.pclass = c] : n \in ValueParams, c \in ValueClasses}
+                \cup {[Base(m, p, s) EXCEPT !.body = b] : b \in BodyClasses}
+           ELSE {})
      \cup {[Base(m, p, s) EXCEPT !.hdr = h] : h \in HeaderVars}
-     \cup {[Base(m, p, s) EXCEPT !.body = b] : b \in BodyClasses}
      : s \in SubSets }
 
 Init == mp \in {[m |-> m, p |-> p] : m \in Methods, p \in Paths}
